@@ -261,8 +261,7 @@ func RuleFilter(r *Report, p *Program, rules aspectSet) {
 			if have != want {
 				bad = fmt.Sprintf("under [%s] the request goes out via %s, the routing table says %s", cut(st.Describe(), 200), have, want)
 			}
-			dest := sp.transport[0].Args[1]
-			ds := termDeep(dest)
+			ds := sp.transport[0].Deep[1]
 			if want == "tcp" || want == "udp" {
 				if !strings.Contains(ds, "u.devices[arg0].Address.AddrPort") || strings.Contains(ds, "broadcastAddr") {
 					bad = "directed request is addressed to " + cut(ds, 100) + ", not to the configured controller address"
